@@ -522,6 +522,14 @@ F_C08_step(cfg, pre, post) ==
              LET s == post.steps[a]
                  ps == FirstNonEmpty(s.wq)
              IN ps # {} /\ InSeq(s.wq[CHOOSE p \in ps : TRUE], s.i))
+       \cup Chk("C08.waiting-lists-follow-the-declared-priorities", \A a \in chs :
+             \* the priority list a waiting customer sits in is the priority the network declares for its class
+             LET s == post.steps[a]
+             IN \A p \in DOMAIN s.wq : \A b \in DOMAIN s.wq[p] :
+                   LET i == s.wq[p][b]
+                       c == IF IsLive(post, i) THEN CuOf(post, i) ELSE IF IsLive(pre, i) THEN CuOf(pre, i) ELSE [cls |-> 0, blk |-> TRUE]
+                   IN c.cls \in 1..cfg.K /\ IsLive(pre, i) /\ IsLive(post, i) /\ CuOf(pre, i).cls = CuOf(post, i).cls
+                      => cfg.prio[c.cls] = p - 1)
        \cup Chk("C08.discipline-sees-exactly-the-waiting-class", \A a \in chs :
              LET s == post.steps[a]
                  ps == FirstNonEmpty(s.wq)
